@@ -37,7 +37,7 @@ COMPONENTS = {
 PROBES = ["pool contains phantom", "phantom outside pools", "style off with heterogeneous styles", "manual record lacks contest",
           "unfindable card", "pooled batch", "super-majority", "IRV", "mean(B) <= 1/2 (assertion false on the paper)",
           "negative margin (CVRs contradict the reported outcome)", "pooled batch of more than 100000 cards",
-          "the CVRs themselves stand in for the manual records"]
+          "the CVRs themselves stand in for the manual records", "diluted margins / means looked at before the identity"]
 
 
 def generate(rng, tier):
@@ -168,6 +168,36 @@ def execute(case):
                 out.violate("C03.c", "pool-contests", f"pooled CVR {c.id} lists {sorted(c.votes)} but its pool "
                                                       f"{c.tally_pool} has {sorted(union[c.tally_pool])}")
                 break
+    # looking at the election without style information (diluted margins, the mean over the manual records) does not
+    # change what any record lists
+    if case.get("diluted_look") and not case.get("big_pool"):
+        before = [sorted(r_.votes.keys()) for r_ in list(cvrs) + list(mvrs)]
+        for cid, con in run.contests.items():
+            for key, asn in sorted(con.assertions.items()):
+                try:
+                    with W.quiet():
+                        ns.Assertion.margin(asn, cvrs, use_style=False)
+                        asn.assorter.mean(mvrs, use_style=False)
+                except Exception as e:
+                    out.raised("diluted look", e)
+        out.probe("diluted margins / means looked at before the identity")
+        after = [sorted(r_.votes.keys()) for r_ in list(cvrs) + list(mvrs)]
+        nchg = sum(1 for a_, b_ in zip(before, after) if a_ != b_)
+        if nchg:
+            out.violate("C03.a", f"records-changed-by-a-look/style={style}",
+                        f"{nchg} records list other contests after the diluted margins / means were computed "
+                        f"(e.g. {next((b_, a_) for a_, b_ in zip(after, before) if a_ != b_)})")
+    # the documented sampling route with every card drawn: each contest's cut-off is its last card
+    drawn = False
+    if not case.get("big_pool"):
+        try:
+            for cid, con in run.contests.items():
+                con.sample_size = run.avail[cid]
+            with W.quiet():
+                ns.CVR.consistent_sampling(cvr_list=cvrs, contests=run.contests)
+            drawn = True
+        except Exception as e:
+            out.raised("consistent_sampling(all)", e)
     for cid, con in run.contests.items():
         descs = W.assertion_descriptors(cid, world["contests"][cid])
         kind = world["contests"][cid]["choice_function"]
@@ -259,6 +289,17 @@ def execute(case):
                                     f"{d_[:5]}..., scoring the {len(B)} (CVR, manual record) pairs one by one gives {[float(b_) for b_ in B[:5]]}...")
                 except Exception as e:
                     out.raised("mvrs_to_data(whole population)", e)
+                if drawn:
+                    try:
+                        with W.quiet():
+                            d_, _u = asn.mvrs_to_data(mvrs, cvrs)
+                        d_ = [float(x) for x in d_]
+                        if len(d_) != len(B) or any(not close(a_, b_) for a_, b_ in zip(d_, B)):
+                            out.violate("C03.a", f"{world['audit_type']}/{kind}/style={style}/via-full-draw",
+                                        f"{cid}/{key}: with every card drawn the sampled route gives {len(d_)} values {d_[:5]}..., "
+                                        f"scoring the {len(B)} pairs one by one gives {[float(b_) for b_ in B[:5]]}...")
+                    except Exception as e:
+                        out.raised("mvrs_to_data(full draw)", e)
             if "/cvrs-as-mvrs" in results:
                 B2, A2 = results["/cvrs-as-mvrs"]
                 lhs2 = float(np.mean(B2)) - 0.5
